@@ -26,7 +26,8 @@ const (
 func PacketAuthOptMetadata(authOpt *slayers.EndToEndOption) (spi uint32, algo uint8) {
 	authOptData := authOpt.OptData
 	if len(authOptData) != PacketAuthOptDataLen {
-		panic("unexpected authenticator option data")
+		// not a time service authenticator: report values that match no SPI/algorithm in use
+		return 0, ^uint8(0)
 	}
 	spi = uint32(authOptData[3]) |
 		uint32(authOptData[2])<<8 |
